@@ -108,14 +108,18 @@ def mq_couple_scenario(nrounds, planted=False):
     ids delivered to the application strictly increase and every publish carries the id of the set just received"""
     def scenario(e):
         fresh_world()
-        mq = MQm.MQ([('tcp://up:5550', None)], 'tcp://*:5560', 'F', outs_metrics=False, outs_filter=False, outs_jpg=False)
+        mq = MQm.MQ([('tcp://up:5550', [('main', 'main'), ('aux', 'aux')])], 'tcp://*:5560', 'F', outs_metrics=False, outs_filter=False, outs_jpg=False)
         sub = list(mq.receiver.senders)[0]
         pull = mq.sender.pulls[0]; pub = mq.sender.pubs[0]
-        prev = -1; ids = []
+        prev = -1; ids = []; want_data = {}
         for k in range(nrounds + 1):
             m = e.fresh_int(f'up{k}', 0); e.assume(m > prev); prev = m; ids.append(m)
-            for part in wire_parts('UP', m, ['main'], 0):
-                part[2:] = []          # no image / no data payload: MQ.topicmsgs2frames decodes the real way
+            bits = e.choice(f'data{k}', 4) if k < 2 else 3          # which of the two topics carries a data part (the other is published without one)
+            for part in wire_parts('UP', m, ['main', 'aux'], 0):
+                if len(part) > 2:
+                    t = part[2].topic; has = bits >> (t == 'aux') & 1
+                    part[2:] = [f'{{"topic":"{t}","n":{k}}}'.encode()] if has else []          # no image; MQ.topicmsgs2frames decodes the real way
+                    want_data[(k, t)] = {'topic': t, 'n': k} if has else {}
                 sub.deliver(part)
         World.oracle = PollOracle(e, 10 * (nrounds + 1), 0)
         last = None
@@ -132,6 +136,15 @@ def mq_couple_scenario(nrounds, planted=False):
             if frames is None: return
             got = mq.send_state.msg_id
             e.observed('recv')
+            # unaltered: every delivered frame carries exactly the data published under that id and topic, and no two frames share one data object
+            for k, i in enumerate(ids):
+                if bool(i == got):
+                    if sorted(frames) != ['aux', 'main']: e.fail('altered', f'id {got}: delivered topics {sorted(frames)}', {'kind': 'altered'})
+                    for t, fr in frames.items():
+                        if fr.data != want_data[(k, t)]:
+                            e.fail('altered', f'id {got} topic {t}: delivered data {fr.data!r}, published {want_data[(k, t)]!r}', {'kind': 'altered'})
+                    if frames['main'].data is frames['aux'].data: e.fail('altered', 'two delivered topics share one data dict object', {'kind': 'altered'})
+                    break
             if last is not None and not (got > last): e.fail('order', f'MQ.recv delivered id {got} after {last}', {'kind': 'order'})
             if planted and rnd == 1: e.fail('planted', 'twin', {'kind': 'planted'})
             last = got
@@ -168,7 +181,7 @@ def harnesses(tier):
                 bounds={'requests_queued': 2 if q else 3, 'request ids': 'unbounded Int >= -1', 'min_send_id': 'unbounded Int >= 0', 'state': 'None or unbounded id',
                         'client kinds': 'sync / ephemeral / new / out-of-band message'}, functions=fn, stubs=stubs, assumptions=assume, budget_s=600),
         Harness('c02.mq_couple', mq_couple_scenario(2 if q else 3), twin=mq_couple_scenario(2, planted=True),
-                bounds={'rounds recv->send': 2 if q else 3, 'downstream requests per round': '0-2, ids unbounded', 'upstream ids': 'unbounded increasing'},
+                bounds={'rounds recv->send': 2 if q else 3, 'downstream requests per round': '0-2, ids unbounded', 'upstream ids': 'unbounded increasing', 'topics': 'main + aux, each with or without a data part (first two publishes)'},
                 functions=fn, stubs=stubs, assumptions=assume, budget_s=600),
     ]
     return hs
